@@ -469,6 +469,9 @@ pub struct Plan {
   pub deadline: Option<Instant>,
   pub keep_fps: bool,
   pub sample_below: u64,
+  /// stop starting new batches once this many children have died (the verdict is clear by then; every
+  /// further death costs a watchdog period)
+  pub max_deaths: u64,
 }
 
 pub fn tmp_dir() -> std::path::PathBuf {
@@ -522,11 +525,13 @@ fn tail(s: &str, n: usize) -> String {
 pub fn run_plan(plan: &Plan) -> Agg {
   let exe = std::env::current_exe().expect("current_exe");
   let total = Arc::new(Mutex::new(Agg::default()));
+  let deaths_so_far = Arc::new(AtomicU64::new(0));
   let w = plan.workers.max(1) as u64;
   std::thread::scope(|scope| {
     for shard in 0..w {
       let total = total.clone();
       let exe = exe.clone();
+      let deaths_so_far = deaths_so_far.clone();
       scope.spawn(move || {
         let mut agg = Agg::default();
         let errfile = tmp_dir().join(format!("{}-{}-{}.err", plan.check, std::process::id(), shard));
@@ -538,6 +543,10 @@ pub fn run_plan(plan: &Plan) -> Agg {
             if Instant::now() >= d {
               break;
             }
+          }
+          if plan.max_deaths > 0 && deaths_so_far.load(Ordering::SeqCst) >= plan.max_deaths {
+            agg.probe("stopped_early_too_many_deaths", 1);
+            break;
           }
           let count = plan.batch.min(mine - done);
           let start = shard + done * w;
@@ -646,6 +655,7 @@ pub fn run_plan(plan: &Plan) -> Agg {
                 stderr_tail: tail(&err, 2000),
               });
               agg.evaluations += 1;
+              deaths_so_far.fetch_add(1, Ordering::SeqCst);
               *agg.probes.entry("child_died".into()).or_default() += 1;
               // resume after the run that killed the child
               done += finished_in_batch + 1;
